@@ -385,6 +385,56 @@ def run(m, rep, tier):
         else:
             t13.ok(name, 'no signed comparison of parameter-derived sizes', floc(m, f))
 
+    # ---- T14: substr defines its destination on every path ---------------------------------------------------------------
+    from .util import writes_through_param
+    t14 = rep.rule('T14', 'substr (re)defines the destination string on every path to its return, an empty result included', floor=2)
+    for pfx in PREFIXES:
+        f = m.pfn(pfx + 'substr')
+        if f is None:
+            t14.undecided(pfx + 'substr', 'not in the model')
+            continue
+        verdict = None
+        for k in range(len(f.args)):
+            root = '$%d' % k
+            defs = set()
+            for i in f.all_insts():
+                if i.op == 'store':
+                    r = resolve_addr(f, i.o[1]).root
+                    if isinstance(r, str) and strip_bitcasts(f, r) == root:
+                        defs.add(i.block.name)
+                elif i.op == 'call' and i.callee and not i.is_intrinsic():
+                    g = m.pfn(i.callee)
+                    for j, o in enumerate(i.o):
+                        if isinstance(o, str):
+                            r = resolve_addr(f, o).root
+                            if isinstance(r, str) and strip_bitcasts(f, r) == root and writes_through_param(m, g, j):
+                                defs.add(i.block.name)
+            if not defs:
+                continue
+            # is a return reachable from the entry without passing a block that writes the destination?
+            seen, todo, leak = set(), [f.blocks[0]], None
+            while todo:
+                b = todo.pop()
+                if b.name in seen or b.name in defs:
+                    continue
+                seen.add(b.name)
+                t = b.insts[-1]
+                if t.op == 'ret':
+                    leak = t
+                    break
+                todo.extend(b.succ)
+            verdict = (k, leak, len(defs))
+            if leak is None:
+                break
+        if verdict is None:
+            t14.violation(pfx + 'substr', 'no parameter is written through at all: the destination keeps whatever it held', floc(m, f), {})
+        elif verdict[1] is not None:
+            t14.violation(pfx + 'substr', 'the return at %s is reachable without the destination being resized / written: for that request (an empty result) '
+                          'the destination keeps the characters it held before instead of becoming the requested substring' % verdict[1].loc(), floc(m, f), {})
+        else:
+            t14.ok(pfx + 'substr', 'every path to a return passes one of %d write(s) / resizing call(s) on parameter %d' % (verdict[2], verdict[0]), floc(m, f))
+
+
 
 class _Collect:
     """stands in for a rule: remembers the single verdict check_terminator produces"""
